@@ -78,6 +78,25 @@ def replay_case(case):
                 a1, a2 = (numpy.asarray(o["mm"].toarray() if hasattr(o["mm"], "toarray") else o["mm"], dtype=float) for o in (o1, o2))
                 if a1.shape != a2.shape or not numpy.array_equal(a1, a2):
                     bad.append({**base, "why": "cells depend on the integer dtype holding the same numbers", "observed": a2.tolist(), "expected": a1.tolist()})
+        # the widest integer dtype too: the same small integers times 2**31 (exact in float64) held as float64 and as int64 - a product of
+        # two such columns is a multiple of 2**62, which float64 holds exactly and int64 arithmetic wraps
+        if rawtop <= 2 ** 20 and not bad:
+            wide_f = df.copy()
+            for c in numcols:
+                wide_f[c] = wide_f[c] * float(2 ** 31)
+            wide_i = wide_f.copy()
+            for c in numcols:
+                wide_i[c] = wide_f[c].astype("int64")
+            o3 = matlib.observe_build(formula, wide_f, output=iout, full_rank=case["full_rank"], na=case["na"], cluster=case["cluster"])
+            o4 = matlib.observe_build(formula, wide_i, output=iout, full_rank=case["full_rank"], na=case["na"], cluster=case["cluster"])
+            if o3["st"] == "OK":
+                base = {"formula": formula, "fid": case["fid"], "output": iout, "full_rank": case["full_rank"], "na": case["na"], "cluster": case["cluster"], "path": "int64 dtype"}
+                if o4["st"] != "OK":
+                    bad.append({**base, "why": "exception with int64 columns", "observed": o4.get("cls"), "msg": o4.get("msg")})
+                else:
+                    a3, a4 = (numpy.asarray(o["mm"].toarray() if hasattr(o["mm"], "toarray") else o["mm"], dtype=float) for o in (o3, o4))
+                    if a3.shape != a4.shape or not numpy.array_equal(a3, a4):
+                        bad.append({**base, "why": "cells depend on the integer dtype holding the same numbers (int64 against float64)", "observed": a4.tolist(), "expected": a3.tolist()})
     return bad
 
 
